@@ -4,6 +4,8 @@ from __future__ import annotations
 
 from typing import Any
 
+from hypothesis import strategies as st
+
 from vf import gen_bp, oracle_bp
 from vf.core import Ctx, HarnessError, require, sut
 
@@ -18,7 +20,11 @@ META = {
             "with different bin counts are compared for dominance. "
             "Sub-check 'decoded' draws instances from all 9 size classes "
             "(storage types int8..int64, bins up to 10^12), 'layouts' draws "
-            "guillotine instances. A case is non-trivial when some packing "
+            "guillotine instances, 'tight' draws layouts that attain the "
+            "declared lower bounds (k-1 completely covered bins plus a last "
+            "bin holding one more copy of the smallest item), 'huge_area' "
+            "draws bins with an area between 2^53 and 2^61 (objective values "
+            "no longer exact as floats). A case is non-trivial when some packing "
             "has >= 2 bins with rows not sorted by bin, or a bin whose "
             "skyline covers a hole (area under the skyline > covered area); "
             "distinct = distinct (instance, packings) cases",
@@ -194,7 +200,68 @@ def check_objectives(ctx: Ctx, case: dict) -> None:
     ctx.rec.case(case, nontrivial=nontrivial, labels=labels)
 
 
-SUBS = {"decoded": check_objectives, "layouts": check_objectives}
+@st.composite
+def tight_cases(draw: Any) -> dict:
+    """Layouts that attain the lower bounds: k-1 bins covered completely by a
+    guillotine cut plus a last bin that holds one more copy of the smallest
+    item. The area bound then equals k, so every objective sits exactly on
+    (or next to) its declared lower bound - the containment clause is tested
+    at the boundary, also in int8/int16 storage where item areas exceed the
+    storage type."""
+    g = draw(gen_bp.guillotine(max_bins=3, max_dim=draw(st.sampled_from(
+        [12, 40, 60, 120])), max_depth=3, allow_slack=False))
+    W, H, k0 = g["W"], g["H"], g["k"]
+    items = [list(it) for it in g["items"]]
+    rows = [list(r) for r in g["rows"]]
+    tid = min(range(len(items)),
+              key=lambda t: (items[t][0] * items[t][1], t))
+    w, h = items[tid][0], items[tid][1]
+    if w > W or h > H:
+        w, h = h, w
+    items[tid][2] += 1
+    rows.append([tid + 1, k0 + 1, 0, 0, w, h])
+    pos = draw(st.integers(0, len(rows) - 1))
+    rows.insert(pos, rows.pop())
+    inst = {"cls": "tight", "W": W, "H": H, "items": items}
+    packs: list[dict] = [{"kind": "rows", "rows": rows, "how": "tight"}]
+    x = draw(gen_bp.signed_perm(inst))
+    packs.append({"kind": "decode", "enc": draw(st.sampled_from([1, 2])),
+                  "x": x})
+    return {"inst": inst, "packs": packs}
+
+
+@st.composite
+def huge_area_cases(draw: Any) -> dict:
+    """Bins whose area lies between 2^53 and 2^61 (10^10..10^12 wide, 10^4 ..
+    3*10^5 high): objective values there are not exactly representable as
+    floats. Items are unit-thin so that the constructor stays cheap."""
+    W = draw(st.sampled_from([10 ** 10, 3 * 10 ** 11, 10 ** 12 - 1,
+                              10 ** 12]))
+    H = draw(st.integers(10 ** 4, 3 * 10 ** 5))
+    if draw(st.booleans()):
+        W, H = H, W
+    n = draw(st.integers(2, 4))
+    while n * W * H >= 2 ** 62:
+        n -= 1
+    items: list[list[int]] = []
+    for _ in range(n):
+        if draw(st.booleans()):
+            items.append([draw(st.sampled_from([W, W - 1, 1, draw(
+                st.integers(1, W))])), 1, 1])
+        else:
+            items.append([1, draw(st.sampled_from([H, H - 1, 1, draw(
+                st.integers(1, H))])), 1])
+    inst = {"cls": "huge_area", "W": W, "H": H, "items": items}
+    own = [[t + 1, t + 1, 0, 0, it[0], it[1]] for t, it in enumerate(items)]
+    packs: list[dict] = [{"kind": "rows", "rows": own, "how": "own_bin"}]
+    for enc in (1, 2):
+        packs.append({"kind": "decode", "enc": enc,
+                      "x": draw(gen_bp.signed_perm(inst))})
+    return {"inst": inst, "packs": packs}
+
+
+SUBS = {"decoded": check_objectives, "layouts": check_objectives,
+        "tight": check_objectives, "huge_area": check_objectives}
 
 
 def run(ctx: Ctx) -> None:
@@ -206,3 +273,7 @@ def run(ctx: Ctx) -> None:
               gen_bp.objective_case_guillotine(
                   max_bins=ctx.pick(4, 6), max_dim=ctx.pick(40, 60)),
               check_objectives, quick=1000, thorough=16 * 2500)
+    ctx.given("tight", tight_cases(), check_objectives, quick=400,
+              thorough=16 * 1500)
+    ctx.given("huge_area", huge_area_cases(), check_objectives, quick=16,
+              thorough=16 * 40, shrink=False)
